@@ -417,6 +417,55 @@ def check_wire(ctx, FB, exp):
     return n
 
 
+def check_read_inner(ctx, FB):
+    """inners::read_inner over mask-block patterns (every single bit of a block, dense and sparse blocks, two blocks):
+    header = the blocks, one value per set bit in ascending index made of exactly its four wire bytes, nothing else consumed"""
+    F = FB["wow_world_messages"]
+    path = "crate::helper::update_mask_common::inners::read_inner"
+    fn = F.fn(path)
+    if fn is None:
+        ctx.violate("um.wire", "anchor|read_inner", "inners::read_inner not found (anchor disappeared)")
+        return 0
+    pats = [[1 << i] for i in range(32)] + [[0], [0xFFFFFFFF], [0x80000001], [0x00010100], [0, 1 << 31], [1 << 31, 1], [5, 0, 0x80000000]]
+    n = 0
+    for blocks in pats:
+        n += 1
+        stream = [len(blocks)]
+        for b in blocks:
+            stream += [(b >> (8 * i)) & 0xFF for i in range(4)]
+        want = {}
+        t = 5000
+        for bi, b in enumerate(blocks):
+            for bit in range(32):
+                if b & (1 << bit):
+                    toks = [Tok(t + k, "any") for k in range(4)]
+                    t += 4
+                    want[bi * 32 + bit] = toks
+                    stream += toks
+        body = len(stream)
+        st = Stream(stream + [Tok(9000 + k, "any") for k in range(4)])
+        what = " ".join(f"{b:#010x}" for b in blocks)
+        try:
+            res = Mini(FB, "wow_world_messages").call_fn(path, [st])
+        except Panic as e:
+            ctx.violate("um.wire", "read_inner|panic", f"inners::read_inner panics on mask blocks [{what}]: {e}", fn["file"], fn["line"])
+            break
+        except Unsupported as e:
+            ctx.violate("um.wire", "read_inner|shape", f"inners::read_inner: shape not recognised — review ({e})", fn["file"], fn["line"])
+            break
+        ok = isinstance(res, tuple) and res[0] == "Ok" and isinstance(res[1], tuple) and len(res[1]) == 2
+        if not ok:
+            ctx.violate("um.wire", "read_inner|result", f"inners::read_inner on a complete mask with blocks [{what}] returns {show(res)} (for example an end-of-input error because it looks for fields that are not present)", fn["file"], fn["line"])
+            break
+        header, values = res[1]
+        got = {k: to_wide(v, 4).slots for k, v in values.d.items()} if isinstance(values, BTree) else None
+        if header != blocks or got != want or st.pos != body:
+            ctx.violate("um.wire", "read_inner|decode", f"inners::read_inner on mask blocks [{what}]: decodes header {header}, field indices {sorted(got) if got is not None else got}, consumes {st.pos} of {body} bytes; "
+                        f"expected the blocks themselves, indices {sorted(want)} each holding its own four bytes", fn["file"], fn["line"])
+            break
+    return n
+
+
 FIELD_NAMES = ("values", "header", "dirty_mask")
 
 
@@ -472,7 +521,8 @@ def run(ctx):
         ctx.sample({"expansion": exp, "table_rows": len(rows), "accessors": a, "setter_interpretations": i})
     ctx.rule("um.table3", sum(len(v) for v in md.values()), floor=860, note="rows of update-mask.md vs the generator's FIELDS tables (3 expansions), rows of one object kind disjoint")
     ctx.rule("um.accessors", total_acc, floor=3720, note=f"generated accessors; {total_int} setter/getter/builder interpretations on abstract arguments (every index value of indexed fields)")
-    ctx.rule("um.wire", wire, floor=21, note="new/set/write/read-back/size/dirty operations interpreted for 7 object kinds x 3 expansions")
+    wire += check_read_inner(ctx, FB)
+    ctx.rule("um.wire", wire, floor=21, note="new/set/write/read-back/size/dirty operations interpreted for 7 object kinds x 3 expansions + read_inner over 39 mask-block patterns (every single bit)")
     fn_n = check_funnel(ctx, FB["wow_world_messages"])
     ctx.rule("um.funnel", fn_n, floor=100, note="accesses to header/dirty_mask/values of the update mask types (who-may-write)")
     ctx.assume("histories: a getter returns the last value set for its field because every setter writes only inside its own table row, rows of one kind are disjoint, "
